@@ -51,17 +51,23 @@ func verifSatisfies(p *verifPend, data enc.Name) bool {
 }
 
 func VerifC20_ExpressResolve() {
-	maxPend := verifParam("pending", 2)
-	maxEvents := verifParam("events", 3)
-	depth := verifParam("depth", 2)
+	verifC20Resolve(verifParam("pending", 2), verifParam("events", 3), verifParam("depth", 2), verifParam("reexpress", 0) != 0)
+}
+
+// the same history universe with further Interests expressed in mid-history (a retry after a Nack or a timeout),
+// over names of one component so that four events stay affordable
+func VerifC20_ExpressResolveRetry() {
+	verifC20Resolve(1, verifParam("retryevents", 4), 1, true)
+}
+
+func verifC20Resolve(maxPend, maxEvents, depth int, reexpress bool) {
 	face := dummy.NewDummyFace()
 	timer := dummy.NewTimer()
 	e := NewEngine(face, timer, verifSigner{}, func(enc.Name, enc.Wire, ndn.Signature) bool { return true })
 	verifAssert(e != nil, "C20/setup")
 	e.Start()
 	var pend []*verifPend
-	np := 1 + verifChoice("npend", maxPend)
-	for i := 0; i < np; i++ {
+	express := func() {
 		p := &verifPend{name: verifC20Name("n", depth), canBePrefix: verifBool("cbp")}
 		p.lifetime = time.Duration(verifRange("lifetime", 1, 10000)) * time.Millisecond
 		p.expressedAt = timer.Now()
@@ -78,13 +84,23 @@ func VerifC20_ExpressResolve() {
 			})
 		verifAssert(err == nil, "C20/express-ok")
 		pend = append(pend, p)
+	}
+	np := 1 + verifChoice("npend", maxPend)
+	for i := 0; i < np; i++ {
+		express()
 		if verifBool("gap") {
 			timer.MoveForward(time.Duration(verifRange("gapms", 0, 10000)) * time.Millisecond)
 		}
 	}
 	nev := verifChoice("nevents", maxEvents+1)
 	for i := 0; i < nev; i++ {
-		switch verifChoice("event", 3) {
+		nkinds := 3
+		if reexpress && len(pend) < maxPend+1 {
+			nkinds = 4 // a further Interest is expressed in mid-history (e.g. a retry after a Nack)
+		}
+		switch verifChoice("event", nkinds) {
+		case 3:
+			express()
 		case 0: // Data arrives
 			dn := verifC20Name("d", depth+1)
 			before := make([]int, len(pend))
